@@ -22,6 +22,8 @@ REPLAYS = os.path.join(VERIF, "replays")
 EVID = os.path.join(VERIF, "evidence")
 KNOWN = os.path.join(VERIF, "known-findings.txt")
 
+import itertools
+_SEQ = itertools.count(1)
 JAVA_TRACE_OPTS = "-Xmx4g -Xss1g -Dtlc2.tool.queue.IStateQueue=StateDeque"
 
 
@@ -145,7 +147,7 @@ def tlc_trace(trace_path, W, prop, timeout=900, module="HbTrace.tla", cfg="HbTra
 
 def _tlc_trace_once(trace_path, W, prop, timeout, module, cfg):
     ensure_dirs()
-    tag = "tv_%d_%d" % (os.getpid(), int(time.time() * 1000) % 1000000)
+    tag = "tv_%d_%d" % (os.getpid(), next(_SEQ))      # unique per call: traces are validated from parallel threads
     meta = os.path.join(WORK, tag)
     cfgp = os.path.join(WORK, tag + ".cfg")
     with open(os.path.join(SPEC, cfg)) as f:
